@@ -7,7 +7,8 @@ value pointers lead to and the `oldest_vlog_file_id` each table records (`tabOld
 minimum kept by `TableWriter::add`), the manifest minimum (`minOldest`) and `cleanup` (files below
 it, never the active one).  Proved for every history of file rotations, table creations (flush,
 compaction output), table removals and clean-ups: every value pointer of every live table leads to
-a file that still exists (`C11_pointers_resolve`).  That values come back byte for byte, for every
+a file that still exists (`C11_pointers_resolve`), also while a compaction round has hidden its inputs and
+flushes run beside it (`C11_pointers_resolve_during_compaction`).  That values come back byte for byte, for every
 size around the separation threshold, through flush, compaction, rotation, clean-up, reopen and
 crash images, with readers open across all of it, is decided by the store stream (placement-free
 specification) and by a walk over all live tables' pointers after every compaction; the encoding
@@ -71,3 +72,40 @@ example :
     runOk {} acts ∧ ((acts.foldl VS.act {}).files = [3, 2]) := by
   refine ⟨?_, by decide⟩
   simp [runOk, actOk, VS.act, VS.newFile, VS.addTable, VS.dropTables]
+
+
+/-! ## with a compaction round in progress -/
+
+def act2Ok (x : VS2) : VAct2 → Prop
+  | .flush _ ptrs => (∀ p ∈ ptrs, p ∈ x.s.files) ∧ (∀ p ∈ ptrs, 0 < p)
+  | _ => True
+
+def run2Ok : VS2 → List VAct2 → Prop
+  | _, [] => True
+  | x, a :: rest => act2Ok x a ∧ run2Ok (x.act false a) rest
+
+/-- **pointers resolve also across a running compaction.**  For every history in which flushes (each with
+freshly written pointers), file rotations and clean-ups run while a compaction round has hidden its inputs,
+and the round's output — carrying the inputs' pointers — is installed later: every value pointer of every
+live table leads to an existing file.  The only side condition left is on flushes; that the compaction
+output's pointers resolve is now a consequence (its inputs stayed counted by the manifest minimum). -/
+theorem C11_pointers_resolve_during_compaction (acts : List VAct2) (x : VS2) (h : x.s.inv) (hok : run2Ok x acts) :
+    (acts.foldl (VS2.act false) x).s.inv := by
+  induction acts generalizing x with
+  | nil => exact h
+  | cons a rest ih =>
+    simp only [List.foldl_cons]
+    obtain ⟨h1, h2⟩ := hok
+    apply ih _ _ h2
+    apply act2_inv x h a
+    intro id ptrs ha
+    subst ha
+    exact h1
+
+/-- the seeded variant (hidden inputs left out of the minimum): a flush committing during the round deletes
+the file the round's output will point into -/
+theorem hidden_inputs_must_be_counted :
+    let acts : List VAct2 := [.newFile 1, .flush 10 [1], .newFile 2, .hide [10], .flush 11 [2], .cleanup, .finish 12]
+    let bad := acts.foldl (VS2.act true) {}
+    let good := acts.foldl (VS2.act false) {}
+    (bad.s.tables.map (·.ptrs) = [[1], [2]] ∧ bad.s.files = [2]) ∧ good.s.files = [2, 1] := by decide
